@@ -308,6 +308,66 @@ fn run_entry(d: &mut Ddnnf, e: &Entry, fresh: Option<&[String]>, n: u32, scratch
     }
 }
 
+/// A C13 block for `inp` with the given lines (all flagged well-formed, each also answered by a
+/// fresh instance): used by the C02 / C03 / C05 runs to observe count / sat / core through the
+/// stream interface.
+pub fn stream_case(id: &str, inp: &crate::k_c01::Input, lines: &[String]) -> String {
+    let profile = if cfg!(debug_assertions) { "debug" } else { "release" };
+    let n = inp.n;
+    let mut s = String::new();
+    writeln!(s, "case {} C13", id).unwrap();
+    writeln!(s, "info {} | {} | stream view", inp.desc, profile).unwrap();
+    writeln!(s, "n {}", n).unwrap();
+    write_models(&mut s, inp);
+    s.push_str(&file_block(inp.format, &inp.lines));
+    match load(&inp.lines, Some(n)) {
+        Err(e) => writeln!(s, "impl panic {}", e).unwrap(),
+        Ok(mut d) => {
+            s.push_str(&dump_circuit(&d));
+            writeln!(s, "profile {}", profile).unwrap();
+            if guarded(hook::reset_enumeration_cache).is_err() {
+                writeln!(s, "cursor_poisoned 1").unwrap();
+            }
+            let scratch = format!("{}/../.cache/run/C13/unused-{}.nnf", env!("CARGO_MANIFEST_DIR"), std::process::id());
+            for l in lines {
+                run_entry(&mut d, &Entry { flag: 'w', line: l.clone() }, Some(&inp.lines[..]), n, &scratch, &mut s);
+            }
+            let clean = d.verif_markers().iter().all(|m| !m) && d.md.is_empty();
+            writeln!(s, "clean {}", clean as u8).unwrap();
+        }
+    }
+    writeln!(s, "end").unwrap();
+    s
+}
+
+/// random well-formed `cmd [a ..] [v ..]` lines (both spellings, any group order, some ranges)
+pub fn query_lines(cmd: &str, n: u32, rng: &mut Rng, count: usize) -> Vec<String> {
+    let mut out = vec![cmd.to_string()];
+    for _ in 0..count {
+        let mut groups: Vec<String> = Vec::new();
+        if rng.chance(2, 3) {
+            let len = 1 + rng.below(2) as usize;
+            let c = rng.chance(4, 5);
+            let a = crate::k_ops::random_list(rng, n, len, c);
+            groups.push(format!("{} {}", if rng.coin() { "a" } else { "assumptions" }, join(&a)));
+        }
+        if rng.chance(2, 3) {
+            let len = 1 + rng.below(4) as usize;
+            let v = if rng.chance(1, 5) && n >= 2 {
+                format!("1..{}", 1 + rng.below(n as u64))
+            } else {
+                join(&crate::k_ops::random_list(rng, n, len, false))
+            };
+            groups.push(format!("{} {}", if rng.coin() { "v" } else { "variables" }, v));
+        }
+        if rng.coin() {
+            groups.reverse();
+        }
+        out.push(format!("{} {}", cmd, groups.join(" ")).trim().to_string());
+    }
+    out
+}
+
 pub fn run(_kind: &str, ctx: &Ctx, out: &mut dyn Write) {
     let mut rng = Rng::new(ctx.seed ^ 0x5eed_0013);
     let thorough = ctx.tier == "thorough";
